@@ -23,7 +23,7 @@ def one(d):
         r = subprocess.run(["patch", "-s", "-p1", "-d", t, "-i", os.path.join(d, "patch.diff")], capture_output=True, text=True)
         if r.returncode != 0:
             return name, {"PATCH": ["does not apply"]}
-        r = subprocess.run(["/verif/check", "all"], env=dict(os.environ, VERIF_REPO=t, VERIF_EVIDENCE=t + "/.verif-evidence"), capture_output=True, text=True)
+        r = subprocess.run(["/verif/check", "all"], env=dict(os.environ, VERIF_REPO=t, VERIF_EVIDENCE=t + "/.verif-evidence", VERIF_BUILD_SLOTS=os.environ.get("VERIF_BUILD_SLOTS", "8"), VERIF_CACHE_KEEP=os.environ.get("VERIF_CACHE_KEEP", "600")), capture_output=True, text=True)
         last = []
         for line in r.stdout.splitlines():
             if line.strip().startswith("violated:"):
